@@ -7,6 +7,8 @@ import (
 	"go/ast"
 	"go/token"
 	"go/types"
+	"golang.org/x/tools/go/packages"
+	"golang.org/x/tools/go/ssa"
 	"strings"
 )
 
@@ -66,6 +68,8 @@ func runC16(c *Ctx) {
 	c.Rule("COLLAPSE-GUARD", "the lossy collapse of the single root module is guarded on every field it would drop", 4)
 	c.Rule("VERSION-SWITCH", "switches over FileVersion are total or fail loudly", 8)
 	c16MigrateCoverage(c)
+	c16PathsRerooted(c)
+	c16WriterIndependent(c)
 	pk := p.Pkg("private/bufpkg/bufconfig")
 	if pk == nil {
 		c.Fail("R-FIELDCOV", "anchor", token.NoPos, "bufconfig not found")
@@ -420,6 +424,204 @@ func c16MigrateCoverage(c *Ctx) {
 				via = "never consulted: the attribute cannot survive the migration"
 			}
 			c.Ob(rule, key, cv.fr.Decl.Pos(), ok, true, "%s.%s(): %s", cv.name, m.Name(), via)
+		}
+	}
+}
+
+// c16PathsRerooted (WRITE-PATHS-REROOTED, round 2): in a v2 buf.yaml the ignore paths of a module are written relative
+// to the workspace, while the in-memory configs hold them relative to the module. The writer helpers take the module
+// directory and define a closure that joins a path onto it. Every value obtained from a *Paths() accessor (directly, or
+// as the range value over the accessor's map) that is stored into an external struct must pass through that closure:
+// a list stored as it is reads back, after a round trip, as paths under the workspace root instead of the module.
+func c16PathsRerooted(c *Ctx) {
+	const rule = "WRITE-PATHS-REROOTED"
+	c.Rule(rule, "module-relative path lists are joined onto the module directory when a workspace buf.yaml is written", 4)
+	p := c.P
+	pk := p.Pkg("private/bufpkg/bufconfig")
+	if pk == nil {
+		c.Fail(rule, "anchor", token.NoPos, "bufconfig not found")
+		return
+	}
+	info := pk.TypesInfo
+	for _, fr := range p.FuncsOf(pk) {
+		if fr.Decl.Body == nil || fr.Decl.Type.Params == nil {
+			continue
+		}
+		// the module-directory parameter and the joining closure
+		var dirParam types.Object
+		for _, f := range fr.Decl.Type.Params.List {
+			for _, nm := range f.Names {
+				if strings.HasSuffix(nm.Name, "DirPath") {
+					dirParam = info.Defs[nm]
+				}
+			}
+		}
+		if dirParam == nil {
+			continue
+		}
+		joiners := map[types.Object]bool{}
+		ast.Inspect(fr.Decl.Body, func(n ast.Node) bool {
+			as, ok := n.(*ast.AssignStmt)
+			if !ok || len(as.Lhs) != 1 || len(as.Rhs) != 1 {
+				return true
+			}
+			fl, ok := as.Rhs[0].(*ast.FuncLit)
+			if !ok {
+				return true
+			}
+			joins := false
+			ast.Inspect(fl.Body, func(m ast.Node) bool {
+				if call, ok := m.(*ast.CallExpr); ok && calleeIs(Callee(info, call), "private/pkg/normalpath", "Join") && len(call.Args) >= 1 && identObj(info, call.Args[0]) == dirParam {
+					joins = true
+				}
+				return true
+			})
+			if joins {
+				if o := identObj(info, as.Lhs[0]); o != nil {
+					joiners[o] = true
+				}
+			}
+			return true
+		})
+		if len(joiners) == 0 {
+			continue
+		}
+		isPathsCall := func(e ast.Expr) bool {
+			call, ok := ast.Unparen(e).(*ast.CallExpr)
+			if !ok {
+				return false
+			}
+			sel, ok := ast.Unparen(call.Fun).(*ast.SelectorExpr)
+			return ok && strings.HasSuffix(sel.Sel.Name, "Paths") && len(call.Args) == 0
+		}
+		// range values over a *Paths() accessor
+		sources := map[types.Object]bool{}
+		ast.Inspect(fr.Decl.Body, func(n ast.Node) bool {
+			if rs, ok := n.(*ast.RangeStmt); ok && isPathsCall(rs.X) && rs.Value != nil {
+				if o := identObj(info, rs.Value); o != nil {
+					sources[o] = true
+				}
+			}
+			return true
+		})
+		mentions := func(e ast.Expr) (src, joined bool) {
+			ast.Inspect(e, func(m ast.Node) bool {
+				switch x := m.(type) {
+				case *ast.Ident:
+					if o := info.Uses[x]; o != nil {
+						if sources[o] {
+							src = true
+						}
+						if joiners[o] {
+							joined = true
+						}
+					}
+				case *ast.CallExpr:
+					if isPathsCall(x) {
+						if _, isMap := info.TypeOf(x).Underlying().(*types.Map); !isMap {
+							src = true
+						}
+					}
+				}
+				return true
+			})
+			return
+		}
+		k := 0
+		ast.Inspect(fr.Decl.Body, func(n ast.Node) bool {
+			as, ok := n.(*ast.AssignStmt)
+			if !ok || len(as.Lhs) != len(as.Rhs) {
+				return true
+			}
+			for i, l := range as.Lhs {
+				root := ast.Unparen(l)
+				if ix, ok := root.(*ast.IndexExpr); ok {
+					root = ast.Unparen(ix.X)
+				}
+				sel, ok := root.(*ast.SelectorExpr)
+				if !ok || !strings.HasPrefix(namedName(info.TypeOf(sel.X)), "external") {
+					continue
+				}
+				src, joined := mentions(as.Rhs[i])
+				if !src {
+					continue
+				}
+				k++
+				c.Ob(rule, fr.Decl.Name.Name+"/"+sel.Sel.Name, as.Pos(), joined, true, "%s is written from a module-relative path list through the joining closure: %v", exprString(l), joined)
+			}
+			return true
+		})
+	}
+}
+
+// c16WriterIndependent (WRITE-INDEPENDENT, round 2): the writers turn each attribute of a config into its own key. An
+// attribute A written only on the edge where a *different* string attribute B is empty (an if / else-if or switch
+// chain over presence tests) silently drops A whenever both are set - e.g. a git input with both `branch` and `ref`.
+// Decided on SSA for every store into an external* struct in bufconfig: no guarding edge of the store is the "empty"
+// edge of a presence test (x == "" / x != "") on another accessor of the same config value.
+func c16WriterIndependent(c *Ctx) {
+	const rule = "WRITE-INDEPENDENT"
+	c.Rule(rule, "an attribute is not written only when another attribute is absent", 20)
+	p := c.P
+	pk := p.Pkg("private/bufpkg/bufconfig")
+	if pk == nil {
+		c.Fail(rule, "anchor", token.NoPos, "bufconfig not found")
+		return
+	}
+	accessorOf := func(v ssa.Value) (recv ssa.Value, name string) {
+		sliceBack(v, func(x ssa.Value) bool {
+			if call, ok := x.(*ssa.Call); ok && call.Call.IsInvoke() && len(call.Call.Args) == 0 && name == "" {
+				recv, name = call.Call.Value, call.Call.Method.Name()
+			}
+			return name == ""
+		})
+		return
+	}
+	for _, sf := range p.SSAFuncsOf([]*packages.Package{pk}) {
+		for _, f := range allSSAFuncs(sf) {
+			for _, b := range f.Blocks {
+				for _, ins := range b.Instrs {
+					st, ok := ins.(*ssa.Store)
+					if !ok {
+						continue
+					}
+					fa, ok := st.Addr.(*ssa.FieldAddr)
+					if !ok {
+						continue
+					}
+					pt, ok := fa.X.Type().Underlying().(*types.Pointer)
+					if !ok || !strings.HasPrefix(namedName(pt.Elem()), "external") {
+						continue
+					}
+					recv, acc := accessorOf(st.Val)
+					if acc == "" {
+						continue
+					}
+					field := pt.Elem().Underlying().(*types.Struct).Field(fa.Field).Name()
+					var foreign []string
+					for _, ge := range guardingEdges(b) {
+						bin, ok := ge.If.Cond.(*ssa.BinOp)
+						if !ok || (bin.Op != token.EQL && bin.Op != token.NEQ) {
+							continue
+						}
+						other := bin.X
+						if isConstString(bin.X, "") {
+							other = bin.Y
+						} else if !isConstString(bin.Y, "") {
+							continue
+						}
+						call, ok := other.(*ssa.Call)
+						if !ok || !call.Call.IsInvoke() || call.Call.Value != recv || call.Call.Method.Name() == acc {
+							continue
+						}
+						// the edge on which `other` is empty
+						if ge.Branch == (bin.Op == token.EQL) {
+							foreign = append(foreign, call.Call.Method.Name())
+						}
+					}
+					c.Ob(rule, ssaFuncName(f)+"/"+namedName(pt.Elem())+"."+field, st.Pos(), len(foreign) == 0, true, "%s (from %s()) is written regardless of other attributes: %v %v", field, acc, len(foreign) == 0, foreign)
+				}
+			}
 		}
 	}
 }
